@@ -13,6 +13,14 @@ fn main() {
         ops::run_threads(&args[2..]);
         return;
     }
+    if args.len() > 1 && args[1] == "mine" {
+        ops::run_mine(&args[2..]);
+        return;
+    }
+    if args.len() > 1 && args[1] == "teardown" {
+        ops::run_teardown(&args[2..]);
+        return;
+    }
     if args.len() > 1 && args[1] == "hammer" {
         ops::run_hammer(&args[2..]);
         return;
